@@ -362,3 +362,72 @@ KNOWN = {
     "in_alternating_group": [1, 1, 0] + [math.factorial(n) // 2 for n in range(3, 11)],
     "yt_perm_avoids_22": [1] + [math.comb(2 * n - 2, n - 1) for n in range(1, 11)],
 }
+
+
+# --------------------------------------------------------------------------------------------
+# Simion-Schmidt: reference maps and the structured family "few left-to-right minima"
+# --------------------------------------------------------------------------------------------
+
+def ss_forward_ref(p):
+    """Simion & Schmidt: left-to-right minima stay; every other position gets, from left to
+    right, the smallest value not yet placed that is larger than the current minimum."""
+    n = len(p)
+    img, used, cur = [], set(), None
+    for v in p:
+        if cur is None or v < cur:
+            cur = v
+            img.append(v)
+        else:
+            img.append(min(k for k in range(cur + 1, n) if k not in used))
+        used.add(img[-1])
+    return tuple(img)
+
+
+def ss_inverse_ref(q):
+    """Inverse: left-to-right minima stay; every other position gets the largest value not yet
+    placed (the non-minima of a 123-avoider decrease)."""
+    n = len(q)
+    img, used, cur = [], set(), None
+    for v in q:
+        if cur is None or v < cur:
+            cur = v
+            img.append(v)
+        else:
+            img.append(max(k for k in range(n) if k not in used))
+        used.add(img[-1])
+    return tuple(img)
+
+
+def narayana(n, k):
+    """Number of 123-avoiders (and of 132-avoiders) of length n with exactly k left-to-right
+    minima."""
+    if n == 0:
+        return 1 if k == 0 else 0
+    if k < 1 or k > n:
+        return 0
+    return math.comb(n, k) * math.comb(n, k - 1) // n
+
+
+def avoiders_123_with_minima(n, k, first):
+    """All 123-avoiders of length n >= 1 with exactly k left-to-right minima whose first entry is
+    `first`.  A 123-avoider is determined by the positions and values of its left-to-right minima
+    (the other entries decrease), so: every choice of k positions (the first is 0) and k decreasing
+    values (the first is `first`, the last is 0), other values filled in decreasing order, kept iff
+    the left-to-right minima of the result are exactly the chosen ones."""
+    out = []
+    if k == 1:
+        if first == 0:
+            out.append((0,) + tuple(range(n - 1, 0, -1)))
+        return out
+    if first < k - 1:
+        return out
+    for pos in itertools.combinations(range(1, n), k - 1):
+        for mid in itertools.combinations(range(first - 1, 0, -1), k - 2):
+            vals = (first,) + mid + (0,)
+            mins = dict(zip((0,) + pos, vals))
+            rest = [v for v in range(n - 1, -1, -1) if v not in vals]
+            it = iter(rest)
+            p = tuple(mins[i] if i in mins else next(it) for i in range(n))
+            if ltr_minima(p) == sorted(mins.items()):
+                out.append(p)
+    return out
